@@ -480,7 +480,7 @@ def model_agrees(cases):
     import re
     shard = 40
     texts = [coq_cases(cases[i:i + shard]) for i in range(0, len(cases), shard)]
-    outs = coq_eval_many('c06', texts)
+    outs = coq_eval_many('c06', texts, timeout=900)
     bad = []
     for k, out in enumerate(outs):
         vals = parse_eval(out)
@@ -535,7 +535,7 @@ def run(run: Run):
         for k, text in viol:
             run.add_finding(Finding(k, WHAT.get(k, text), wit, observed=text, expected='no activity after the call returned; one task per slot'))
 
-    n = 110 if run.tier == "quick" else 900
+    n = 110 if run.tier == "quick" else 450
     seen_new = set()
     for i in range(n):
         ops = gen_ops(run.rng)
